@@ -50,6 +50,12 @@ MUTANTS = [
          "        ensure_state_root(tick, entry.expected.state_root, actual_state_root)?;\n\n        let parent_hashes"),
         (WC + "provenance_store.rs", "pub(crate) fn replay_worldline_state_at_from_provenance<P: ProvenanceStore>(",
          "fn ensure_state_root(tick: WorldlineTick, expected: Hash, actual: Hash) -> Result<(), ReplayError> {\n    if actual != expected {\n        return Err(ReplayError::StateRootMismatch { tick, expected, actual });\n    }\n    Ok(())\n}\n\npub(crate) fn replay_worldline_state_at_from_provenance<P: ProvenanceStore>(")]),
+    ("silent-fork-checkpoint-bound-as-length", {"silent": ["C07", "C15"]}, [
+        (WC + "provenance_store.rs", "                .filter(|c| c.checkpoint.worldline_tick <= checkpoint_max_tick)\n",
+         "                .filter(|c| c.checkpoint.worldline_tick.as_u64() < (end_idx as u64).saturating_add(1))\n")]),
+    ("c07-fork-checkpoint-bound-off-by-one", {"fire": ["C07"]}, [
+        (WC + "provenance_store.rs", "                .filter(|c| c.checkpoint.worldline_tick <= checkpoint_max_tick)\n",
+         "                .filter(|c| c.checkpoint.worldline_tick.as_u64() <= (end_idx as u64).saturating_add(1))\n")]),
 ]
 
 
